@@ -93,6 +93,36 @@ def thorough_extras(prop, report):
     report.extra["selftest"] = summary
     print("self-test %s: %d mutants fired, %d behaviour-preserving edits silent, %d skipped, %d missed, %d false alarms" % (
         prop, len(summary["fired"]), len(summary["silent_ok"]), len(summary["skipped"]), len(summary["missed"]), len(summary["false_alarm"])))
+    # the kept seeded changes written against this property must be reported by this check; the independent behaviour-preserving
+    # refactorings must not be (scratch copies of /repo; /repo is never modified)
+    import glob, json as _json, shutil as _sh
+    seeds = []
+    for mp in sorted(glob.glob(os.path.join(rep.VERIF, "seeded", "*", "meta.json"))):
+        try:
+            if _json.load(open(mp)).get("property") == prop:
+                seeds.append(os.path.join(os.path.dirname(mp), "patch.diff"))
+        except Exception:
+            pass
+    refs = sorted(glob.glob(os.path.join(rep.VERIF, "refactors_ext", "*", "patch.diff")))
+    jobs = [{"id": "seed:" + os.path.basename(os.path.dirname(p_)), "patch": p_, "property": prop, "expect": "/"} for p_ in seeds] + \
+           [{"id": "refactor:" + os.path.basename(os.path.dirname(p_)), "patch": p_, "property": prop, "expect_silent": True} for p_ in refs]
+    if jobs:
+        with ProcessPoolExecutor(max_workers=min(12, len(jobs))) as ex:
+            res2 = list(ex.map(selftest.run_mutant, jobs))
+        seeds_fired = [x[0] for x in res2 if x[0].startswith("seed:") and x[1].startswith("fired")]
+        seeds_missed = [x[0] for x in res2 if x[0].startswith("seed:") and not x[1].startswith("fired")]
+        refs_silent = [x[0] for x in res2 if x[0].startswith("refactor:") and x[1] == "silent-ok"]
+        refs_alarm = [(x[0], x[2]) for x in res2 if x[0].startswith("refactor:") and x[1] != "silent-ok"]
+        report.extra["seeds"] = {"reported": seeds_fired, "missed": seeds_missed}
+        report.extra["refactorings"] = {"silent": len(refs_silent), "alarms": refs_alarm}
+        r = report.rule("E4", "replay: the confirmed seeded changes written against this property are reported; the 40 independent "
+                              "behaviour-preserving refactorings are not")
+        report.obligation(not seeds_missed, "%s/E4/seed-not-reported" % prop, "seeded changes not reported: %s" % seeds_missed, None,
+                          sample="%d seeded changes reported" % len(seeds_fired))
+        report.obligation(not refs_alarm, "%s/E4/refactoring-reported" % prop, "behaviour-preserving refactorings reported (false alarms): %s" % refs_alarm[:3], None,
+                          sample="%d refactorings silent" % len(refs_silent))
+        report.instance(len(jobs))
+        print("replay %s: %d/%d seeded changes reported, %d/%d refactorings silent" % (prop, len(seeds_fired), len(seeds), len(refs_silent), len(refs)))
     if prop in WITNESS_PROPS:
         r = report.rule("E3", "compile-fail witnesses (external crate cannot name/call the internal mutators) with compiling twins")
         out = subprocess.run([os.path.join(rep.VERIF, "witness", "run.sh")], stdout=subprocess.PIPE, stderr=subprocess.STDOUT).stdout.decode(errors="replace")
